@@ -222,6 +222,14 @@ func validateRaw(msg messages.Builder, d []byte, strict bool) error {
 		return fmt.Errorf("the message must start with the BeginString and BodyLength fields and end with the CheckSum field")
 	}
 
+	// BeginString is covered neither by BodyLength nor, for zero bytes, by the checksum:
+	// it has to be the one the message type was built for.
+	if want := msg.BeginString(); want != nil && want.Value != nil && len(want.Value.ToBytes()) > 0 &&
+		!bytes.Equal(want.Value.ToBytes(), bs.Load().ToBytes()) {
+		return fmt.Errorf("an unexpected BeginString: %s, required: %s",
+			string(bs.Load().ToBytes()), string(want.Value.ToBytes()))
+	}
+
 	offset := len(bs.ToBytes()) + 1 // extra delimiter
 	offset += len(bl.ToBytes()) + 1 // extra delimiter
 	length := len(d) - offset
